@@ -48,7 +48,7 @@ Conv(f, v) ==
             [] v.t = "uint" -> IntRes(64, BigOf(v))
             [] v.t = "double" -> (IF v.c \in {"nan", "inf"} THEN Err ELSE IntRes(64, DTrunc(v)))
             [] v.t = "string" -> (LET x == ParseDec(v.v) IN IF x = BadTs THEN (IF Lenient(v.v) THEN Indef ELSE Err) ELSE IntRes(64, x))
-            [] v.t = "timestamp" -> IntV(EpochSeconds(BigOf(v)))
+            [] v.t = "timestamp" -> (IF TRem(BigOf(v), Mega) = Z THEN IntV(EpochSeconds(BigOf(v))) ELSE Indef)   \* whole seconds only: the statement does not say how a fraction is dropped
             [] OTHER -> Indef)
     [] f = "uint" ->
          (CASE v.t = "uint" -> v
